@@ -9,8 +9,8 @@ facts about the source: `Gen/C06.lean`).  Every statement quantifies over all to
 placeholders), all keyword dictionaries, all texts of arbitrary Unicode scalar values, all byte strings.
 
 Reading guide
-* §0 the generator half of `_compile_route`, `quote_path_segment` and `route_url` still have the shape the model
-  assumes, and the safe sets are what the proofs need (generated terms, decided).
+* §0 the safe sets, measured on the tree under test through its public entry points, are what the proofs need
+  (generated terms, decided).  Nothing depends on the shape of the source text.
 * §1 `gen % newdict` on the template C01 checks character by character *is* token-wise substitution.
 * §2 the output is ASCII and obeys `( unreserved | PATH_SAFE | "%" HEX HEX )*`; it never holds `?` or `#`.
 * §3 it is one piece per token, and a literal's piece is the literal, quoted with safe `/` — decoding gives it back.
@@ -30,23 +30,17 @@ open Pyr.Rx (Rx Ucd Lang)
 
 /-! ## 0. the generated facts -/
 
-/-- Every site of the generator half has the shape the model was written for: both literals through
-`quote_path_segment(·, safe=…)` then `.replace('%', '%%')`; placeholders as `'%%(%s)s' % name`; the closure decodes
-`bytes` first, quotes a remainder sequence element by element and joins with `/`, stringifies everything else, then
-`gen % newdict`; `_segment_cache` is keyed by `(segment, safe)`; `route_url` assembles
-`app_url + path + suffix + qs + anchor`; `_join_elements` stringifies non-str/bytes elements into a tuple and calls the `lru_cache`d
-`_join_text_elements` (what `joinElementsMemo` models; the pre-9c714c3 shape is not recognised).  Fails (by `decide`) as soon as the translator reads anything else. -/
-theorem source_shape_recognised :
-    Pyr.Gen.C06.recognised = true ∧ Pyr.Gen.C06.pctDoubled = true ∧ Pyr.Gen.C06.placeholderTpl = true ∧
-    Pyr.Gen.C06.formatsTemplate = true ∧ Pyr.Gen.C06.bytesDecoded = true ∧ Pyr.Gen.C06.restPerElement = true ∧
-    Pyr.Gen.C06.plainStringified = true ∧ Pyr.Gen.C06.cacheKeyedBySafe = true ∧
-    Pyr.Gen.C06.quoteSegmentShape = true ∧ Pyr.Gen.C06.assemblyShape = true ∧
-    Pyr.Gen.C06.elemCacheLru = true ∧ Pyr.Gen.C06.elemKeyIsText = true := by decide
+/-- The translator's probes all ran on the tree under test: every ASCII byte, at each of the six quoting sites
+(`{name}` value, `*remainder` element, leading literal, inner literal, extra element, `SCRIPT_NAME`), came out either as
+itself or as its `%HH` escape, through `Route.generate` / `Request.route_path` — no reading of closure internals. -/
+theorem probes_ran : Pyr.Gen.C06.probed = true := by decide
 
-/-- The safe sets read from the source: literals keep exactly `/`; the value set keeps `/`; the element set does not;
+/-- The safe sets measured on the source: `{name}` values and `*remainder` elements are quoted with the same set;
+literals keep exactly `/`; the value set keeps `/`; the element set does not;
 all are ASCII without `%`; none lets `?` or `#` through; value and literal sets lie inside unreserved ∪ PATH_SAFE,
 the element set inside RFC 3986 `pchar`. -/
 theorem safe_sets_ok :
+    Pyr.Gen.C06.restSafe = Pyr.Gen.C06.valSafe ∧
     Pyr.Gen.C06.litSafePrefix = [47] ∧ Pyr.Gen.C06.litSafeInner = [47] ∧
     valSafe.contains 47 = true ∧ elemSafe.contains 47 = false ∧
     SafeOk valSafe ∧ SafeOk litSafe ∧ SafeOk elemSafe ∧ SafeOk scriptSafe ∧
